@@ -806,6 +806,22 @@ func c07JunkDoc(r *Rng) interface{} {
 }
 
 func (c07) Exec(seed int64, i int, tier string) Record {
+	if i%16 == 11 {
+		// class panic-probe (b11_helpers.go): evaluations repeated after an evaluation that ended in a panic of the
+		// caller's own function (recovered by the caller) must return the sequence they returned before — a traversal
+		// that hands its pooled key buffer back twice on the panic path scrambles the order of LATER traversals
+		r := CaseRng(seed, "C07", i)
+		acc := r.Chance(25)
+		viol, tags, info := b11PanicProbe(r, acc)
+		rec := Record{Text: "(panic probe)", Tags: append(tags, "class:panic-probe"), Info: info, Viol: viol}
+		if viol != "" {
+			rec.Class = "order-varies"
+		}
+		if len(tags) > 0 {
+			rec.Key = "panic-probe/" + strings.Join(tags, ",") + fmt.Sprint(acc)
+		}
+		return rec
+	}
 	r := CaseRng(seed, "C07", i)
 	g := &c07Gen{r: r, o: GenOpts{MaxDepth: 3, Filters: true, MaxSteps: 3, ErrBias: 8}}
 	nkeys := r.Range(2, 12)
